@@ -1,110 +1,60 @@
-(* Xlsx/Refutations.v — the unguarded statement "the importer never panics" is false for the
-   skeleton as the code stands: witness packages (Generated/Witness_c25.v, the same packages the
-   harness builds as zip files and feeds to the real importer) evaluated by vm_compute.
-   Each witness violates the guard and makes the skeleton panic (three former witnesses, repaired by
-   2db1935 / f8b4521 / d5aa85e, now return Err and satisfy the guard, see the fixed_ lemmas); the valid base packages satisfy
-   the guard and load. *)
+(* Xlsx/Refutations.v — the FORMER refutation witnesses (Generated/Witness_c25.v: the same packages the
+   harness builds as zip files and feeds to the real importer).  Before the repairs each of them made
+   the skeleton (and the code) panic; after 2db1935, f8b4521, d5aa85e, dfbff56, 256a2e8, 4ecd40d,
+   1babd25, b7d4aff, b5c23c2 each of them is an import error or loads.  Evaluated by vm_compute. *)
 From IronCalc Require Import Base.Prelude Xlsx.Skeleton Xlsx.SkeletonProofs Generated.Witness_c25.
 
-Definition never_panics : Prop := forall p, load_skel p <> Panic.
+Lemma fixed_no_sheetdata : load_skel w_no_sheetdata = Err.
+Proof. vm_compute; reflexivity. Qed.
 
-(* repaired in /repo: the former witness now satisfies the guard and the importer returns Err *)
-Lemma fixed_no_sheetdata : guard w_no_sheetdata = true /\ load_skel w_no_sheetdata = Err.
-Proof. split; vm_compute; reflexivity. Qed.
+Lemma fixed_short_target_empty : load_skel w_short_target_empty = Err.
+Proof. vm_compute; reflexivity. Qed.
 
-Lemma panics_short_target_empty : guard w_short_target_empty = false /\ load_skel w_short_target_empty = Panic.
-Proof. split; vm_compute; reflexivity. Qed.
+Lemma fixed_short_target_one : load_skel w_short_target_one = Err.
+Proof. vm_compute; reflexivity. Qed.
 
-Lemma refuted_short_target_empty : ~ never_panics.
-Proof. intros H. exact (H w_short_target_empty (proj2 panics_short_target_empty)). Qed.
+Lemma fixed_nonboundary_target : load_skel w_nonboundary_target = Err.
+Proof. vm_compute; reflexivity. Qed.
 
-Lemma panics_short_target_one : guard w_short_target_one = false /\ load_skel w_short_target_one = Panic.
-Proof. split; vm_compute; reflexivity. Qed.
+Lemma fixed_short_table_target : load_skel w_short_table_target = Err.
+Proof. vm_compute; reflexivity. Qed.
 
-Lemma refuted_short_target_one : ~ never_panics.
-Proof. intros H. exact (H w_short_target_one (proj2 panics_short_target_one)). Qed.
+Lemma fixed_no_worksheets_dir : load_skel w_no_worksheets_dir = Err.
+Proof. vm_compute; reflexivity. Qed.
 
-Lemma panics_nonboundary_target : guard w_nonboundary_target = false /\ load_skel w_nonboundary_target = Panic.
-Proof. split; vm_compute; reflexivity. Qed.
+Lemma fixed_dangling_rid : load_skel w_dangling_rid = Err.
+Proof. vm_compute; reflexivity. Qed.
 
-Lemma refuted_nonboundary_target : ~ never_panics.
-Proof. intros H. exact (H w_nonboundary_target (proj2 panics_nonboundary_target)). Qed.
+Lemma fixed_local_sheet_id_out_of_range : load_skel w_local_sheet_id_out_of_range = Err.
+Proof. vm_compute; reflexivity. Qed.
 
-Lemma panics_short_table_target : guard w_short_table_target = false /\ load_skel w_short_table_target = Panic.
-Proof. split; vm_compute; reflexivity. Qed.
+Lemma fixed_defined_name_without_worksheets : load_skel w_defined_name_without_worksheets = Err.
+Proof. vm_compute; reflexivity. Qed.
 
-Lemma refuted_short_table_target : ~ never_panics.
-Proof. intros H. exact (H w_short_table_target (proj2 panics_short_table_target)). Qed.
+Lemma fixed_styles_no_fonts : load_skel w_styles_no_fonts = Err.
+Proof. vm_compute; reflexivity. Qed.
 
-Lemma panics_no_worksheets_dir : guard w_no_worksheets_dir = false /\ load_skel w_no_worksheets_dir = Panic.
-Proof. split; vm_compute; reflexivity. Qed.
+Lemma fixed_styles_no_fills : load_skel w_styles_no_fills = Err.
+Proof. vm_compute; reflexivity. Qed.
 
-Lemma refuted_no_worksheets_dir : ~ never_panics.
-Proof. intros H. exact (H w_no_worksheets_dir (proj2 panics_no_worksheets_dir)). Qed.
+Lemma fixed_styles_no_borders : load_skel w_styles_no_borders = Err.
+Proof. vm_compute; reflexivity. Qed.
 
-(* repaired in /repo: the former witness now satisfies the guard and the importer returns Err *)
-Lemma fixed_dangling_rid : guard w_dangling_rid = true /\ load_skel w_dangling_rid = Err.
-Proof. split; vm_compute; reflexivity. Qed.
+Lemma fixed_styles_no_cellstylexfs : load_skel w_styles_no_cellstylexfs = Err.
+Proof. vm_compute; reflexivity. Qed.
 
-(* repaired in /repo: the former witness now satisfies the guard and the importer returns Err *)
-Lemma fixed_local_sheet_id_out_of_range : guard w_local_sheet_id_out_of_range = true /\ load_skel w_local_sheet_id_out_of_range = Err.
-Proof. split; vm_compute; reflexivity. Qed.
+Lemma fixed_styles_no_cellstyles : load_skel w_styles_no_cellstyles = Err.
+Proof. vm_compute; reflexivity. Qed.
 
-Lemma panics_defined_name_without_worksheets : guard w_defined_name_without_worksheets = false /\ load_skel w_defined_name_without_worksheets = Panic.
-Proof. split; vm_compute; reflexivity. Qed.
+Lemma fixed_styles_no_cellxfs : load_skel w_styles_no_cellxfs = Err.
+Proof. vm_compute; reflexivity. Qed.
 
-Lemma refuted_defined_name_without_worksheets : ~ never_panics.
-Proof. intros H. exact (H w_defined_name_without_worksheets (proj2 panics_defined_name_without_worksheets)). Qed.
+Lemma fixed_rgb_nonboundary : load_skel w_rgb_nonboundary = Ok tt.
+Proof. vm_compute; reflexivity. Qed.
 
-Lemma panics_styles_no_fonts : guard w_styles_no_fonts = false /\ load_skel w_styles_no_fonts = Panic.
-Proof. split; vm_compute; reflexivity. Qed.
-
-Lemma refuted_styles_no_fonts : ~ never_panics.
-Proof. intros H. exact (H w_styles_no_fonts (proj2 panics_styles_no_fonts)). Qed.
-
-Lemma panics_styles_no_fills : guard w_styles_no_fills = false /\ load_skel w_styles_no_fills = Panic.
-Proof. split; vm_compute; reflexivity. Qed.
-
-Lemma refuted_styles_no_fills : ~ never_panics.
-Proof. intros H. exact (H w_styles_no_fills (proj2 panics_styles_no_fills)). Qed.
-
-Lemma panics_styles_no_borders : guard w_styles_no_borders = false /\ load_skel w_styles_no_borders = Panic.
-Proof. split; vm_compute; reflexivity. Qed.
-
-Lemma refuted_styles_no_borders : ~ never_panics.
-Proof. intros H. exact (H w_styles_no_borders (proj2 panics_styles_no_borders)). Qed.
-
-Lemma panics_styles_no_cellstylexfs : guard w_styles_no_cellstylexfs = false /\ load_skel w_styles_no_cellstylexfs = Panic.
-Proof. split; vm_compute; reflexivity. Qed.
-
-Lemma refuted_styles_no_cellstylexfs : ~ never_panics.
-Proof. intros H. exact (H w_styles_no_cellstylexfs (proj2 panics_styles_no_cellstylexfs)). Qed.
-
-Lemma panics_styles_no_cellstyles : guard w_styles_no_cellstyles = false /\ load_skel w_styles_no_cellstyles = Panic.
-Proof. split; vm_compute; reflexivity. Qed.
-
-Lemma refuted_styles_no_cellstyles : ~ never_panics.
-Proof. intros H. exact (H w_styles_no_cellstyles (proj2 panics_styles_no_cellstyles)). Qed.
-
-Lemma panics_styles_no_cellxfs : guard w_styles_no_cellxfs = false /\ load_skel w_styles_no_cellxfs = Panic.
-Proof. split; vm_compute; reflexivity. Qed.
-
-Lemma refuted_styles_no_cellxfs : ~ never_panics.
-Proof. intros H. exact (H w_styles_no_cellxfs (proj2 panics_styles_no_cellxfs)). Qed.
-
-Lemma panics_rgb_nonboundary : guard w_rgb_nonboundary = false /\ load_skel w_rgb_nonboundary = Panic.
-Proof. split; vm_compute; reflexivity. Qed.
-
-Lemma refuted_rgb_nonboundary : ~ never_panics.
-Proof. intros H. exact (H w_rgb_nonboundary (proj2 panics_rgb_nonboundary)). Qed.
-
-Lemma panics_comment_t_without_text : guard w_comment_t_without_text = false /\ load_skel w_comment_t_without_text = Panic.
-Proof. split; vm_compute; reflexivity. Qed.
-
-Lemma refuted_comment_t_without_text : ~ never_panics.
-Proof. intros H. exact (H w_comment_t_without_text (proj2 panics_comment_t_without_text)). Qed.
+Lemma fixed_comment_t_without_text : load_skel w_comment_t_without_text = Ok tt.
+Proof. vm_compute; reflexivity. Qed.
 
 Lemma bases_load :
-  (guard base_0 = true /\ load_skel base_0 = Ok tt) /\ (guard base_1 = true /\ load_skel base_1 = Ok tt) /\
-  (guard base_2 = true /\ load_skel base_2 = Ok tt) /\ (guard base_3 = true /\ load_skel base_3 = Ok tt).
+  load_skel base_0 = Ok tt /\ load_skel base_1 = Ok tt /\ load_skel base_2 = Ok tt /\ load_skel base_3 = Ok tt.
 Proof. repeat split; vm_compute; reflexivity. Qed.
